@@ -78,7 +78,7 @@ Create(o, k, p) ==
 Eff(o) == IF op[o].kind = "idt" THEN <<Params(o).reg, 0>> ELSE <<Params(o).reg, Params(o).sing>>
 
 WeakForm(o) ==
-    /\ op[o].kind \in {"slp", "hyp", "idt"}
+    /\ op[o].kind \in {"slp", "hyp", "idt", "mhyp"}
     /\ LET w == IF op[o].weak = <<>> THEN Eff(o) ELSE op[o].weak
        IN /\ op' = [op EXCEPT ![o].weak = w]
           /\ Obs("weak_form", o, w, <<>>)
@@ -115,7 +115,7 @@ MassOrderFor(o) == IF MassHonoursExplicit /\ op[o].pref = "P"
                    THEN (IF MassCacheKeyed THEN pobj.reg ELSE IF mass = {} THEN pobj.reg ELSE CHOOSE m \in mass : TRUE)
                    ELSE MassOrderNow
 StrongForm(o) ==
-    /\ op[o].kind \in {"slp", "hyp", "idt"}
+    /\ op[o].kind \in {"slp", "hyp", "idt", "mhyp"}
     /\ LET w == IF op[o].weak = <<>> THEN Eff(o) ELSE op[o].weak
            s == IF op[o].strong = <<>> THEN <<MassOrderFor(o)>> ELSE op[o].strong
        IN /\ op' = [op EXCEPT ![o].weak = w, ![o].strong = s]
@@ -153,7 +153,7 @@ SameObject ==
 
 \* first weak assembly uses the values of the operator's own parameter object at that moment
 ExplicitHonoured ==
-    [][\A o \in Slots : (op[o].kind \in {"slp", "hyp", "idt", "fmm"} /\ op[o].weak = <<>> /\ op'[o].weak # <<>>)
+    [][\A o \in Slots : (op[o].kind \in {"slp", "hyp", "idt", "mhyp", "fmm"} /\ op[o].weak = <<>> /\ op'[o].weak # <<>>)
                             => op'[o].weak = Eff(o)]_vars
 
 \* first strong-form evaluation uses the mass matrix a fresh process would compute now from the operator's own parameter object
